@@ -424,6 +424,8 @@ def lifecycle(kind: str) -> list:
         for round_ in (1, 2):
             reader = asyncio.StreamReader(loop=loop)
             reader.feed_data(f"{round_};255;3;0;9;round{round_}\n".encode())
+            if round_ == 1:
+                reader.feed_data(b"1;2;1;0")  # the first connection drops in the middle of a line
             reader.feed_eof()
             w5 = FakeWriter()
 
@@ -438,6 +440,10 @@ def lifecycle(kind: str) -> list:
             k, v = run(t5.read())
             if k != "ok" or v.rstrip("\n") != f"{round_};255;3;0;9;round{round_}":
                 bad("reconnect-read", f"after connect #{round_} read gave {k} {v!r} (expected the line of connection #{round_})")
+            if round_ == 1:
+                k, v = run(t5.read())
+                if not (k == "raise" and isinstance(v, TransportError)):
+                    bad("midline-end", f"a stream ending in the middle of a line gave {k} {v!r}")
             k, v = run(t5.write(f"w{round_}\n"))
             if k != "ok" or w5.data != f"w{round_}\n".encode():
                 bad("reconnect-write", f"after connect #{round_} write gave {k} {v!r}; the new connection received {w5.data!r}")
